@@ -277,6 +277,29 @@ contract("C20", "overlaps_4", [S + "spherecluster:Spheres.overlaps", S + "sphere
          tier='thorough')(_overlaps([4], 'thorough'))
 
 
+@contract("C20", "overlaps_after_add", [S + "spherecluster:Spheres.overlaps", S + "spherecluster:Spheres.add",
+                                        S + "composite:Scatterers.add", S + "spherecluster:Spheres.largest_overlap"],
+          bounded="a cluster of 1 or 2 spheres to which one sphere is added", max_paths=200)
+def overlaps_after_add(c):
+    """the reported pairs are exact after members are added: overlaps / largest_overlap reflect the current members"""
+    m = c.choice("initial_members", [1, 2])
+    sph, rs, cs = _members(c, m + 1)
+    cl = c.call(Spheres, list(sph[:m]), warn=False)
+    before = set(cl.overlaps)
+    c.call(cl.add, sph[m])
+    got = set(cl.overlaps)
+    conds = []
+    for i in range(m + 1):
+        for j in range(i + 1, m + 1):
+            conds.append(c.iff((i, j) in got, c.sqrt(d2(cs[i], cs[j])) < rs[i] + rs[j]))
+    c.ensures("exact-pair-set-after-add", c.and_(True, *conds))
+    exp = 0
+    for i in range(m + 1):
+        for j in range(i + 1, m + 1):
+            exp = c.max(exp, rs[i] + rs[j] - c.sqrt(d2(cs[i], cs[j])))
+    c.ensures("largest-overlap-after-add", c.eq(c.call(cl.largest_overlap), exp))
+
+
 @contract("C20", "rejections", [S + "spherecluster:Spheres.__init__", S + "spherecluster:Spheres.add",
                                 S + "sphere:Sphere.__init__", S + "scatterer:CenteredScatterer.__init__"])
 def rejections(c):
